@@ -640,8 +640,40 @@ func c19Gateway(r *Run) {
 	checkLen("RPCDiscoverIP response", &gateway.RPCDiscoverIP{IP: "ffff:ffff:ffff:ffff:ffff:ffff:255.255.255.255"}, true)
 }
 
+// the free-sectors response has no crisp bound: a request within the protocol's limits on a large contract
+// yields a proof that exceeds the receiver's limit (documented in rhp/v4/encoding.go; known finding F10)
+func c19FreeSectorsResponse(r *Run) {
+	const n = 1 << 21 // sectors in the contract (8 TiB)
+	roots := make([]types.Hash256, n)
+	for i := range roots {
+		roots[i][0], roots[i][1], roots[i][2] = byte(i), byte(i>>8), byte(i>>16)
+	}
+	var freed []uint64
+	for i := uint64(0); i < n && len(freed) < int(rhp4.MaxSectorBatchSize); i += 8 {
+		freed = append(freed, i+uint64(r.rng.IntN(8)))
+	}
+	req := rhp4.RPCFreeSectorsRequest{Indices: freed, Prices: rhp4.HostPrices{ValidUntil: time.Now().Add(time.Hour)}}
+	sk := types.GeneratePrivateKey()
+	req.Prices.Signature = sk.SignHash(req.Prices.SigHash())
+	if err := req.Validate(sk.PublicKey(), types.V2FileContract{Filesize: n * rhp4.SectorSize, Capacity: n * rhp4.SectorSize}); err != nil {
+		r.violate("harness.c19-f10", "free-sectors request does not validate: %v", err)
+		return
+	}
+	th, lh := rhp4.BuildFreeSectorsProof(roots, freed)
+	resp := &rhp4.RPCFreeSectorsResponse{OldSubtreeHashes: th, OldLeafHashes: lh}
+	var buf bytes.Buffer
+	rhp4.WriteResponse(&buf, resp)
+	limit := rhp4.VerifMaxLen(resp) + rhp4.VerifMaxLen(new(rhp4.RPCError))
+	err := rhp4.ReadResponse(&buf, new(rhp4.RPCFreeSectorsResponse))
+	r.count("oracle-free-sectors-response")
+	if err != nil {
+		r.violate("known.F10", "RPCFreeSectorsResponse for a valid request (%d of %d sectors freed, every 8th) carries %d+%d hashes = %d bytes, the receiver's limit is %d: %v", len(freed), n, len(th), len(lh), 16+32*(len(th)+len(lh))+32, limit, err)
+	}
+}
+
 func runC19(r *Run) {
 	c19Rhp4(r)
+	c19FreeSectorsResponse(r)
 	c19Rhp2(r)
 	c19Rhp3(r)
 	c19Gateway(r)
